@@ -251,7 +251,8 @@ func (sx *Sx) resultOf(t types.Type, app *Tm) sxVal {
 		}
 	case *types.Slice:
 		if isByteType(u.Elem()) {
-			return sxStr{app}
+			// a fresh buffer owned by the caller (it may be overwritten in place)
+			return sxDyn{&sxDynBuf{T: app, Len: TmLen(app)}}
 		}
 	case *types.Array:
 		if isByteType(u.Elem()) && u.Len() <= sxMaxArray {
@@ -381,6 +382,9 @@ func (fr *sxFrame) appendB(x *ssa.Call, args []sxVal) sxVal {
 		return base
 	}
 	tail := args[1]
+	if d, isDyn := tail.(sxDyn); isDyn {
+		tail = sxStr{d.B.T} // append reads the bytes now
+	}
 	// tail with no elements
 	switch t := tail.(type) {
 	case sxSlice:
@@ -496,7 +500,11 @@ func (fr *sxFrame) copyB(args []sxVal) sxVal {
 		return sxK(0, 64)
 	}
 	var src []sxVal
-	switch s := args[1].(type) {
+	from := args[1]
+	if d, isDyn := from.(sxDyn); isDyn {
+		from = sxStr{d.B.T} // copy reads the bytes now
+	}
+	switch s := from.(type) {
 	case sxSlice:
 		if !s.Nil {
 			for i := s.Lo; i < s.Hi; i++ {
@@ -1180,6 +1188,9 @@ func (fr *sxFrame) sprintf(args []sxVal) sxVal {
 		}
 		switch verb {
 		case 's', 'v':
+			if d, isDyn := a.(sxDyn); isDyn {
+				a = sxStr{d.B.T}
+			}
 			switch y := a.(type) {
 			case sxStr, sxSlice:
 				if _, isSlice := y.(sxSlice); isSlice && verb == 'v' {
